@@ -13,7 +13,7 @@
      reason of form ("Invalid stack", IndexError, TypeError).
    Completeness (every string of the grammar is accepted) is C05.  Resource limits of CPython (recursion depth for
    about 1000 nested parentheses) are outside the model (DESIGN.md 10). *)
-From DL Require Import Base Lexer Parser Eval Shape Grammar Denote ShapeSound.
+From DL Require Import Base Lexer Parser Eval Shape Grammar Denote ShapeSound GenSrc SourceTie.
 
 Theorem C06_accept_sound : forall s ty, parse_shape s = Ok ty ->
   split_ws s "" [] <> [] /\ Forall2 dim_form (split_ws s "" []) (t_shape ty) /\ markers (t_shape ty) <= 1.
@@ -35,6 +35,12 @@ Example C06_accepted_examples :
     ["a"; "b c=3 *g a+1"; "... h w"; "n=isqrt(min(a,4)^2)/(b-1) 07"; "((a))"] = true.
 Proof. vm_compute. reflexivity. Qed.
 
+(* source tie: the tables the parser consults (operator classes and strings, precedence order, identifier pattern), as
+   translated from /repo's _parser.py on this run, are the model's *)
+Theorem C06_source_tables : parser_tables_agree.
+Proof. exact parser_tables. Qed.
+
 Redirect "C06.assumptions.1" Print Assumptions C06_accept_sound.
 Redirect "C06.assumptions.2" Print Assumptions C06_only_syntax_error.
 Redirect "C06.assumptions.3" Print Assumptions C06_no_late_error.
+Redirect "C06.assumptions.9" Print Assumptions C06_source_tables.
